@@ -1,8 +1,137 @@
-import RNacos.Model.BufReader
-import RNacos.Spec.Stream
-namespace RNacos.Props.C20
-open RNacos.Varint
+import RNacos.Lemmas.Scan
+import RNacos.Lemmas.FileReader
+/-!
+# C20 — length-prefixed record streams decode identically under every chunking
 
-theorem stub : vwrite 300 = [172, 2] := by decide
+Only property theorems live here (helper lemmas: `RNacos/Lemmas/{Varint,BufReader,Drain,Scan,FileReader}`).
+Model: `RNacos/Model/{Varint,BufReader,FileReader}.lean` (hand transcription of
+`src/common/protobuf_utils.rs` and of `LogInnerManager::move_to_index_by_count`), tied to the code by
+the `codec` correspondence run of `/verif/check C20`.
+
+All statements are for *every* u64 / every record-length sequence / every partition into chunks; no
+bound on sizes or counts.
+-/
+namespace RNacos.Props.C20
+open RNacos.Varint RNacos.BufReader RNacos.FileReader RNacos.Spec.Stream
+
+/-! ## varint writer, reader and size function agree for every 64-bit value -/
+
+/-- reader ∘ writer = id, whatever bytes follow -/
+theorem varint_read_write (v : Nat) (hv : v < 2 ^ 64) (rest : List Nat) :
+    vread (vwrite v ++ rest) 0 = .ok v := vread_vwrite v rest hv
+
+/-- size function = number of bytes written -/
+theorem varint_size (v : Nat) (hv : v < 2 ^ 64) : (vwrite v).length = vsizeof v :=
+  vwrite_length_eq_vsizeof v hv
+
+/-- never more than 10 bytes, never none -/
+theorem varint_len_bounds (v : Nat) : 1 ≤ (vwrite v).length ∧ (vwrite v).length ≤ 10 :=
+  ⟨vwrite_length_pos v, vwrite_length_le v⟩
+
+/-- a non-zero length never starts with the end marker -/
+theorem varint_nonzero_head (v : Nat) (hv : 0 < v) : (vwrite v).head? ≠ some 0 :=
+  vwriteF_head_ne_zero 9 v hv
+
+/-! ## the reader loop: same records under every chunking -/
+
+/-- **Main theorem (snapshot / transfer / metadata / `read_records` pattern).**  For every sequence of
+record bodies, every well-formed tail and *every* partition of the byte stream into chunks, feeding the
+chunks to a fresh `MessageBufReader` and taking messages after each chunk yields exactly the written
+frames, in order, nothing dropped, nothing added, and the loop does not spin. -/
+theorem drain_any_chunking (bodies : List (List Nat)) (tail : List Nat) (chunks : List (List Nat))
+    (hb : BodiesOK bodies) (ht : TailOK tail) (hc : chunks.flatten = stream bodies tail) :
+    (drainAll new chunks).1 = bodies.map frame ∧ (drainAll new chunks).2.2 = false :=
+  drainAll_correct chunks new bodies tail (wf_new _) hb ht (by rw [window_new]; simpa using hc)
+    (by intro b rest _; rw [window_new]; exact frame_length_pos b)
+
+/-- the result does not depend on the chunking at all -/
+theorem drain_chunking_independent (bodies : List (List Nat)) (tail : List Nat)
+    (c1 c2 : List (List Nat)) (hb : BodiesOK bodies) (ht : TailOK tail)
+    (h1 : c1.flatten = stream bodies tail) (h2 : c2.flatten = stream bodies tail) :
+    (drainAll new c1).1 = (drainAll new c2).1 := by
+  rw [(drain_any_chunking bodies tail c1 hb ht h1).1, (drain_any_chunking bodies tail c2 hb ht h2).1]
+
+/-- the capacity of the internal buffer is irrelevant (1024 is only the initial size) -/
+theorem drain_any_capacity (cap : Nat) (bodies : List (List Nat)) (tail : List Nat)
+    (chunks : List (List Nat)) (hb : BodiesOK bodies) (ht : TailOK tail)
+    (hc : chunks.flatten = stream bodies tail) :
+    (drainAll (new cap) chunks).1 = bodies.map frame :=
+  (drainAll_correct chunks (new cap) bodies tail (wf_new _) hb ht (by rw [window_new]; simpa using hc)
+    (by intro b rest _; rw [window_new]; exact frame_length_pos b)).1
+
+/-! ## the end-of-log scan (`move_to_index_by_count`): stops at the first zero length, never earlier -/
+
+/-- **Scan theorem.** For every chunking of a well-formed stream, the scan with limit `count ≥ 1`
+counts exactly `min count |records|` records and advances the cursor by exactly their bytes – in
+particular (limit not reached) it stops at the first zero length byte / end of file and never earlier,
+whether or not a record ends on a chunk boundary. -/
+theorem scan_any_chunking (bodies : List (List Nat)) (tail : List Nat) (chunks : List (List Nat))
+    (count : Nat) (hcount : 0 < count)
+    (hb : BodiesOK bodies) (ht : TailOK tail) (hc : chunks.flatten = stream bodies tail) :
+    scanCount new chunks 0 0 count =
+      ((frames (bodies.take (min count bodies.length))).length, min count bodies.length, false) := by
+  have h := scanCount_correct chunks new bodies tail 0 0 count (wf_new _) hb ht
+    (by rw [window_new]; simpa using hc)
+    (by intro b rest _; rw [window_new]; exact frame_length_pos b) (Or.inr hcount)
+  have hk : kOf count 0 bodies.length = min count bodies.length := by
+    unfold kOf; split <;> simp_all <;> omega
+  rw [h, hk]; simp
+
+/-- the end-of-log form used by `LogInnerManager::init` (`count = 0xffff`, fewer records than that
+since the last index entry): every record is found. -/
+theorem scan_to_end (bodies : List (List Nat)) (tail : List Nat) (chunks : List (List Nat))
+    (hn : bodies.length ≤ 0xffff)
+    (hb : BodiesOK bodies) (ht : TailOK tail) (hc : chunks.flatten = stream bodies tail) :
+    scanCount new chunks 0 0 0xffff = ((frames bodies).length, bodies.length, false) := by
+  rw [scan_any_chunking bodies tail chunks 0xffff (by omega) hb ht hc]
+  have : min 0xffff bodies.length = bodies.length := by omega
+  rw [this, List.take_length]
+
+/-- `count = 0` never matches `c == count` (the counter starts at 1): the scan runs to the end of
+the records.  (This is the arithmetic fact behind C03's "cut on an index boundary" defect.) -/
+theorem scan_count_zero_runs_to_end (bodies : List (List Nat)) (tail : List Nat)
+    (chunks : List (List Nat))
+    (hb : BodiesOK bodies) (ht : TailOK tail) (hc : chunks.flatten = stream bodies tail) :
+    scanCount new chunks 0 0 0 = ((frames bodies).length, bodies.length, false) := by
+  have h := scanCount_correct chunks new bodies tail 0 0 0 (wf_new _) hb ht
+    (by rw [window_new]; simpa using hc)
+    (by intro b rest _; rw [window_new]; exact frame_length_pos b) (Or.inl rfl)
+  have hk : kOf 0 0 bodies.length = bodies.length := by unfold kOf; simp
+  rw [h, hk, List.take_length]; simp
+
+/-! ## the oracle and the file reader -/
+
+/-- the whole-stream reference decoder used as the check's oracle returns exactly the frames -/
+theorem oracle_is_spec (bodies : List (List Nat)) (tail : List Nat)
+    (hb : BodiesOK bodies) (ht : TailOK tail) :
+    specDecode (stream bodies tail).length (stream bodies tail) = bodies.map frame :=
+  specDecode_stream bodies tail _ hb ht (by
+    rw [stream_eq, List.length_append]; have := frames_length_ge bodies; omega)
+
+/-- `FileMessageReader::read_index_position(i)` = offset and length of record `i`; error past the end -/
+theorem fileReader_index_position (bodies : List (List Nat)) (i : Nat) (pre tail : List Nat)
+    (hb : BodiesOK bodies) (ht : TailOK tail) :
+    (readIndexPosition i ⟨pre ++ stream bodies tail, pre.length⟩).map (·.1) =
+      if h : i < bodies.length then
+        some (pre.length + (frames (bodies.take i)).length, (frame bodies[i]).length)
+      else none :=
+  readIndexPosition_stream bodies i pre tail hb ht
+
+/-! ## non-vacuity: the hypotheses are met by concrete non-trivial streams -/
+
+example : BodiesOK [[7, 8], [1, 1, 1, 1, 1]] ∧ TailOK [0, 0, 0] ∧
+    [[2, 7], [8, 5], [1, 1, 1, 1, 1, 0, 0], [0]].flatten = stream [[7, 8], [1, 1, 1, 1, 1]] [0, 0, 0] := by
+  refine ⟨?_, Or.inr rfl, by decide⟩
+  intro b hb
+  simp only [List.mem_cons, List.mem_nil_iff, or_false] at hb
+  rcases hb with rfl | rfl <;> exact ⟨by decide, by simp⟩
+
+/-- a concrete run (capacity 4, so the buffer has to grow and to shift): records split inside the
+length prefix and inside the body come out whole -/
+example : (drainAll (new 4) [[2, 7], [8, 5], [1, 1, 1, 1, 1, 0, 0], [0]]).1 =
+    [[7, 8], [1, 1, 1, 1, 1]].map frame := by decide
+
+example : scanCount (new 4) [[2, 7], [8, 5], [1, 1, 1, 1, 1, 0, 0], [0]] 0 0 0xffff = (9, 2, false) := by
+  decide
 
 end RNacos.Props.C20
